@@ -56,15 +56,15 @@ type Stmt struct {
 }
 
 type Member struct {
-	Kind     string  `json:"kind"` // field | ctor | method
-	Name     string  `json:"name"`
-	Type     string  `json:"type"` // field type / return type ("" for ctor)
-	Params   []Param `json:"params"`
+	Kind     string   `json:"kind"` // field | ctor | method
+	Name     string   `json:"name"`
+	Type     string   `json:"type"` // field type / return type ("" for ctor)
+	Params   []Param  `json:"params"`
 	Mods     []string `json:"mods"`
-	Anns     []Ann   `json:"anns"`
-	Generic  string  `json:"generic"` // "" or "<T>"
-	Body     []Stmt  `json:"body"`
-	SameLine bool    `json:"sameLine"` // starts on the line the previous member ends on
+	Anns     []Ann    `json:"anns"`
+	Generic  string   `json:"generic"` // "" or "<T>"
+	Body     []Stmt   `json:"body"`
+	SameLine bool     `json:"sameLine"` // starts on the line the previous member ends on
 }
 
 type Unit struct {
